@@ -339,6 +339,48 @@ def run(ctx):
                 if prev is not None and not (r[0] <= prev * (1 + 1e-15)):
                     ctx.violation("non_increasing_in_threshold", {"kind": "diffuse_thr", "gc": gc, "U": U.tolist(), "trig": base_tr, "pexit": base_pe, "thr": thr}, f"<= {prev}", float(r[0]))
                 prev = r[0]
+    # histories on ONE thrown geometry object: all sequences of length <= 3 over an alphabet of 4 calls; every call's
+    # result must equal the same call on a freshly thrown object (compute() calls mcintegral twice on one throw)
+    nh = 0
+    for gi, gc in enumerate(gcs):
+        U = diffuse_design(gc, 3)
+        if U is None:
+            continue
+        g0 = make_geom(gc)
+        g0.throw(U.copy())
+        cs = np.cos(g0.thetas())
+        narrow = [float(np.nextafter(c, np.inf)) for c in cs]  # every event just outside its cone
+        mixed = [float(np.nextafter(cs[0], np.inf)), -1.0, float(cs[2])]
+        calls = [
+            (list(narrow), [50.0, 50.0, 50.0], 10.0),
+            (math.cos(gc["cone"]), [50.0, 50.0, 50.0], 10.0),
+            (list(mixed), [5.0, 50.0, 500.0], 10.0),
+            (-1.0, [0.5, 50.0, 5.0], 1.0),
+        ]
+        pex = [0.3, 1.0, 0.7]
+
+        def one(g, c):
+            cosv, trig, thr = c
+            r = g.mcintegral(np.array(trig), (np.array(cosv) if isinstance(cosv, list) else cosv), np.array(pex), thr, 1.0, 1.0)
+            return (float(r[0]), float(r[1]), int(r[2]))
+
+        fresh = []
+        for c in calls:
+            g = make_geom(gc)
+            g.throw(U.copy())
+            fresh.append(one(g, c))
+        for d in (2, 3):
+            for seq in itertools.product(range(len(calls)), repeat=d):
+                g = make_geom(gc)
+                g.throw(U.copy())
+                for pos, ci in enumerate(seq):
+                    r = one(g, calls[ci])
+                    nh += 1
+                    if r != fresh[ci]:
+                        ctx.violation("integral_independent_of_call_history", {"kind": "diffuse_history", "gc": gc, "U": U.tolist(), "seq": list(seq[: pos + 1])}, list(fresh[ci]), list(r))
+                        break
+        ctx.tick(nh, ("Dhist", gi))
+    ctx.cov["isolated_diffuse_history_calls"] = nh
     ctx.cov["isolated_diffuse_calls"] = n1
     ctx.sample({"kind": "diffuse", "k": 2, "trigger": [9.999999999999998, 10.0], "threshold": 10.0, "cos_eff": "cos_sep-1ulp, cos_sep+1ulp", "pexit": [1.19e-7, 1.0]})
     # ---- part 1b: target
@@ -431,6 +473,33 @@ def replay(case):
         a, _, _, _ = diffuse_call(gc, U, case["trig"], [-1.0] * kk, case["pexit"], ths[i - 1], 1.0, 1.0)
         b, _, _, _ = diffuse_call(gc, U, case["trig"], [-1.0] * kk, case["pexit"], ths[i], 1.0, 1.0)
         return [] if b[0] <= a[0] * (1 + 1e-15) else [("non_increasing_in_threshold", float(a[0]), float(b[0]))]
+    if k == "diffuse_history":
+        gc, U = case["gc"], np.array(case["U"], dtype=float)
+        g0 = make_geom(gc)
+        g0.throw(U.copy())
+        cs = np.cos(g0.thetas())
+        calls = [
+            ([float(np.nextafter(c, np.inf)) for c in cs], [50.0, 50.0, 50.0], 10.0),
+            (math.cos(gc["cone"]), [50.0, 50.0, 50.0], 10.0),
+            ([float(np.nextafter(cs[0], np.inf)), -1.0, float(cs[2])], [5.0, 50.0, 500.0], 10.0),
+            (-1.0, [0.5, 50.0, 5.0], 1.0),
+        ]
+        pex = [0.3, 1.0, 0.7]
+
+        def one(g, c):
+            cosv, trig, thr = c
+            r = g.mcintegral(np.array(trig), (np.array(cosv) if isinstance(cosv, list) else cosv), np.array(pex), thr, 1.0, 1.0)
+            return (float(r[0]), float(r[1]), int(r[2]))
+
+        g = make_geom(gc)
+        g.throw(U.copy())
+        f = one(g, calls[case["seq"][-1]])
+        g = make_geom(gc)
+        g.throw(U.copy())
+        r = None
+        for ci in case["seq"]:
+            r = one(g, calls[ci])
+        return [] if r == f else [("integral_independent_of_call_history", list(f), list(r))]
     if k == "target":
         return judge_target(case["k"], case["cuts"], case["method"], case["trig"], case["cos"], case["pexit"], case["ld"], case["dark"], case["thr"], case["sn"], case["sw"])
     if k == "wiring":
